@@ -816,6 +816,13 @@ def _separator(ch, mode, prev, t, must_nl, no_nl, nl, comments, lay, idx):
         return ch.pick([b'', b' ']) + nl + ch.pick([b'', b'  ', b'\t', b'    '])
     if k == 'blank':
         return nl + ch.pick([b'', b'  ']) + nl
+    if k == 'linecomment' and ch.chance(60):
+        parts = []
+        for _ in range(2 + ch.below(3)):
+            c = line_comment(ch)
+            lay.comments.append((idx, c))
+            parts.append(b' ' + c + nl + ch.pick([b'', b'  ', nl]))
+        return b''.join(parts)
     if k == 'lcomment':
         c = long_comment(ch, not no_nl)
         lay.comments.append((idx, c))
@@ -848,9 +855,20 @@ def _lines_separator(ch, prev, t, need_space, no_nl, nl, comments, lay, idx):
         return ch.pick([b'', b' ', b' '])
     lead = ch.pick([b'', b'  ', b'    ', b'\t', b' ', b'      '])
     trail = ch.pick([b'', b'', b' ', b'  ', b'\t'])
-    k = ch.weighted([(170, 'plain'), (30, 'blank'), (16, 'blanks'), (22, 'ownline'), (22, 'eol'), (8, 'wsline')])
-    if not comments and k in ('ownline', 'eol'):
+    k = ch.weighted([(170, 'plain'), (30, 'blank'), (16, 'blanks'), (22, 'ownline'), (22, 'eol'), (8, 'wsline'),
+                     (8, 'multi')])
+    if not comments and k in ('ownline', 'eol', 'multi'):
         k = 'plain'
+    if k == 'multi':
+        # a run of own-line comments separated by blanks and blank lines
+        parts = [trail + nl]
+        for _ in range(2 + ch.below(3)):
+            c = line_comment(ch)
+            lay.comments.append((idx, c))
+            parts.append(ch.pick([b'', b'  ', b'\t']) + c + nl)
+            if ch.chance(80):
+                parts.append(ch.pick([b'', b' ']) + nl)
+        return b''.join(parts) + lead
     if k == 'plain':
         return trail + nl + lead
     if k == 'blank':
